@@ -326,6 +326,19 @@ def _run(op: str, a: list) -> str:
         patched = [m for m in (common, mc) if getattr(m, "datetime", None) is _dt.datetime]      # wherever the library bound the class
         for m in patched:
             m.datetime = FakeDT
+        # the environment is part of the configuration the property quantifies over: whatever variables the library's source mentions (none on the pinned tree)
+        # are set, for part of the calls, to values a build system might export (flags, epochs, paths)
+        global _ENV_NAMES
+        if _ENV_NAMES is None:
+            _ENV_NAMES = sorted(library_env_vars())
+        saved_env = {}
+        if _ENV_NAMES:
+            pick = sum(map(ord, repr(sorted(params.items(), key=lambda kv: kv[0])))) % 8
+            val = [None, None, "1", "0", "1500000000", "315532800", "true", "4102444800"][pick]
+            if val is not None:
+                for n_ in _ENV_NAMES:
+                    saved_env[n_] = os.environ.get(n_)
+                    os.environ[n_] = val
         try:
             kw = {k: materialize(v) for k, v in params.items() if not (isinstance(v, proto.Opaque) and v.tag == 99)}
             f = mc.build_delegating_metadata if which == "delegating" else mc.build_root_metadata
@@ -336,6 +349,11 @@ def _run(op: str, a: list) -> str:
         finally:
             for m in patched:
                 m.datetime = _dt.datetime
+            for n_, v_ in saved_env.items():
+                if v_ is None:
+                    os.environ.pop(n_, None)
+                else:
+                    os.environ[n_] = v_
     if op == "key":
         fn, rest = a[0], a[1:]
         C, P = common.PrivateKey, common.PublicKey
@@ -397,6 +415,9 @@ def enc_case(op: str, args: list) -> str:
         vals = [proto.Opaque(99) if (k in optional and params.get(k, 0) is None) else params.get(k, defaults.get(k, proto.Opaque(99))) for k in order]
         return f"build {which} {clock} " + " ".join(proto.enc(v) for v in vals)
     return " ".join([op] + [proto.enc(x) for x in args])
+
+
+_ENV_NAMES = None
 
 
 def library_env_vars() -> set:
